@@ -11,7 +11,9 @@ def FieldOk (st : Style) (env : PEnv) : FK → FV → Prop
   | .algo, .n v => v ≤ 255
   | .name, .nm n => WfName n ∧ OctetsOk n ∧ NameCfgOk st env n
   | .cstr maxTok maxBytes true, .b s =>
-    (∀ c ∈ s, c < 128) ∧ (∀ m, maxTok = some m → s.length ≤ m) ∧ (∀ m, maxBytes = some m → s.length ≤ m)
+    (∀ c ∈ s, c < 256) ∧ (∀ m, maxTok = some m → s.length ≤ m) ∧ (∀ m, maxBytes = some m → s.length ≤ m)
+  | .cstr maxTok maxBytes false, .b s =>
+    s ≠ [] ∧ (∀ c ∈ s, isAlnumC c = true) ∧ (∀ m, maxTok = some m → s.length ≤ m) ∧ (∀ m, maxBytes = some m → s.length ≤ m)
   | .ip4, .b a => ∃ x0 x1 x2 x3, a = [x0, x1, x2, x3] ∧ x0 < 256 ∧ x1 < 256 ∧ x2 < 256 ∧ x3 < 256
   | .ip6, .b a => a.length = 16 ∧ ∀ x ∈ a, x < 256
   | .salt, .b s => (∀ x ∈ s, x < 256) ∧ s.length ≤ 255
@@ -33,7 +35,7 @@ theorem field_rt (st : Style) (env : PEnv) (k : FK) (v : FV) (h : FieldOk st env
   case name.nm n => exact ⟨_, _, field_name st env n h.1 h.2.1 h.2.2⟩
   case cstr.b maxTok maxBytes q s =>
     cases q with
-    | false => simp [FieldOk] at h
+    | false => simp only [FieldOk] at h; exact ⟨_, _, field_cstr_bare st env maxTok maxBytes s h.1 h.2.1 h.2.2.1 h.2.2.2⟩
     | true => simp only [FieldOk] at h; exact ⟨_, _, field_cstr_quoted st env maxTok maxBytes s h.1 h.2.1 h.2.2⟩
   case ip4.b a =>
     obtain ⟨x0, x1, x2, x3, rfl, h0, h1, h2, h3⟩ := h
@@ -89,7 +91,7 @@ def TailOk (st : Style) : TK → Option FV → Prop
   | .hex, some (.b d) => d ≠ [] ∧ (∀ x ∈ d, x < 256) ∧ ChunkOk st.hexChunk st.hexSep
   | .b64 fixed0, some (.b d) => d ≠ [] ∧ (∀ x ∈ d, x < 256) ∧ ChunkOk (if fixed0 then 0 else st.b64Chunk) st.b64Sep
   | .txt, some (.bl ss) => ss ≠ [] ∧ ∀ s ∈ ss, (∀ c ∈ s, c < 256) ∧ s.length ≤ 255
-  | .optCstr, some (.b s) => (∀ c ∈ s, c < 128) ∧ s.length ≤ 255
+  | .optCstr, some (.b s) => (∀ c ∈ s, c < 256) ∧ s.length ≤ 255
   | _, _ => False
 
 def HeadNotHash (toks : List Tok) : Prop := ∀ t, toks.head? = some t → NotHash t
@@ -181,13 +183,12 @@ theorem tail_rt (st : Style) (tk : TK) (tail : Option FV) (h : TailOk st tk tail
     by_cases he : s = []
     · subst he
       exact ⟨[], by simp [printTail], by simp, by simp [parseTail], by intro t ht; simp at ht⟩
-    · have ho256 : ∀ c ∈ s, c < 256 := fun c hc => by have := ho c hc; omega
-      have hlex := lexes_quoted (escapifyR s) (quoteBody_escapify _ hesc s ho256)
-      have hu : unescapeCP (escapifyR s) = some s := unescapeCP_escapify _ hesc s ho256
+    · have hlex := lexes_quoted (escapifyR s) (quoteBody_escapify _ hesc s ho)
+      have hu : unescapeBytes (escapifyR s) = some s := unescapeBytes_escapify _ hesc s ho
       have hle : ¬ s.length > 255 := by omega
       refine ⟨[(quote (escapifyR s), [⟨.quoted, escapifyR s⟩])], by simp [printTail, he], ?_, ?_, ?_⟩
       · intro p hp; simp at hp; subst hp; simpa [quote] using hlex
-      · simp [parseTail, hu, encodeMax, utf8Encode_ascii s ho, hle]
+      · simp [parseTail, hu, bytesMax, hle]
       · intro t ht; simp at ht; subst ht; exact Or.inl rfl
 
 /-! ## the whole record through `dns.rdata.from_text` -/
